@@ -9,8 +9,12 @@ import (
 	"fmt"
 	"math/rand/v2"
 	"net"
+	"net/http"
+	"net/http/httptest"
+	"os"
 	"strings"
 	"sync"
+	"sync/atomic"
 	"testing"
 	"testing/synctest"
 	"time"
@@ -258,6 +262,114 @@ func TestC13(t *testing.T) {
 		}
 		synctest.Test(t, func(t *testing.T) { c13Bounced(t, run, k, run.Rand(n+k)) })
 	}
+	if desc := map[string]any{"kind": "request-ids-under-load"}; run.Mine(n+9000, desc) {
+		c13Load(t, run, desc)
+	}
+}
+
+// c13Load: "every forwarded request carries X-Request-ID (the client's, else a fresh unique one)".
+// Uniqueness is a statement about many requests at once: real time, the proxy's whole handler chain
+// called in-process by 32 clients without rest for two seconds (every fourth request brings its own
+// id), two real loopback targets that note the id of everything they receive. No generated id
+// reaches a target twice, every client-supplied id arrives as sent.
+func c13Load(t *testing.T, run *Run, desc any) {
+	run.Eval()
+	RestoreHTTPDefaults()
+	dir, err := os.MkdirTemp("", "vh-c13-")
+	if err != nil {
+		run.Inconclusive("tempdir: %v", err)
+		return
+	}
+	defer os.RemoveAll(dir)
+	var mu sync.Mutex
+	seen := map[string]int{}
+	missing := 0
+	mk := func() *httptest.Server {
+		return httptest.NewServer(http.HandlerFunc(func(w http.ResponseWriter, r *http.Request) {
+			if r.URL.Path != "/up" {
+				id := r.Header.Get("X-Request-Id")
+				mu.Lock()
+				if id == "" {
+					missing++
+				}
+				seen[id]++
+				mu.Unlock()
+			}
+			w.Write([]byte("ok"))
+		}))
+	}
+	a, b := mk(), mk()
+	defer a.Close()
+	defer b.Close()
+	cfg := &server.Config{AlternateConfigDir: dir, HttpPort: 80, HttpsPort: 443}
+	router := server.NewRouter(cfg.StatePath())
+	srv := server.NewServer(cfg, router)
+	h := server.VerifHandler(srv)
+	to := server.TargetOptions{HealthCheckConfig: server.HealthCheckConfig{Path: "/up", Interval: time.Second, Timeout: 5 * time.Second}, ResponseTimeout: 10 * time.Second}
+	addr := func(s *httptest.Server) string { return strings.TrimPrefix(s.URL, "http://") }
+	if err := router.DeployService("svc", []string{addr(a), addr(b)}, server.ServiceOptions{}, to, 10*time.Second, 5*time.Second); err != nil {
+		run.Inconclusive("deploy: %v", err)
+		return
+	}
+	var stop atomic.Bool
+	var total, own, bad atomic.Int64
+	var wg sync.WaitGroup
+	for c := 0; c < 32; c++ {
+		wg.Add(1)
+		go func() {
+			defer wg.Done()
+			for k := 0; !stop.Load(); k++ {
+				req := httptest.NewRequest("GET", "http://load.example/x", nil)
+				if k%4 == 3 {
+					req.Header.Set("X-Request-Id", fmt.Sprintf("client-%d-%d", c, k))
+					own.Add(1)
+				}
+				rec := httptest.NewRecorder()
+				h.ServeHTTP(rec, req)
+				total.Add(1)
+				if rec.Code != 200 {
+					bad.Add(1)
+				}
+			}
+		}()
+	}
+	time.Sleep(2 * time.Second)
+	stop.Store(true)
+	wg.Wait()
+	router.RemoveService("svc")
+	mu.Lock()
+	defer mu.Unlock()
+	run.Count("load_requests", int(total.Load()))
+	run.Count("load_distinct_ids_at_the_targets", len(seen))
+	if bad.Load() > 0 || total.Load() < 2000 {
+		run.Inconclusive("load scenario unusable: %d requests, %d not answered 200", total.Load(), bad.Load())
+		return
+	}
+	if missing > 0 {
+		run.Violate("request-id-missing:under-load", fmt.Sprintf("%d of %d forwarded requests reached a target without X-Request-Id", missing, total.Load()), desc, nil)
+		return
+	}
+	dups, first, clientSeen := 0, "", 0
+	for id, n := range seen {
+		if strings.HasPrefix(id, "client-") {
+			clientSeen++
+		}
+		if n > 1 {
+			dups += n - 1
+			if first == "" {
+				first = fmt.Sprintf("%q reached the targets %d times", id, n)
+			}
+		}
+	}
+	if dups > 0 {
+		run.Violate("request-id-not-unique:under-load", fmt.Sprintf("%d of %d requests sent by 32 concurrent clients reached a target with an X-Request-Id that another request carried too; first: %s", dups, total.Load(), first), desc, nil)
+		return
+	}
+	if int64(clientSeen) != own.Load() {
+		run.Violate("client-request-id-replaced:under-load", fmt.Sprintf("%d requests brought their own X-Request-Id, %d of those ids arrived at the targets", own.Load(), clientSeen), desc, nil)
+		return
+	}
+	run.Class("load|request-ids")
 }
 
 // c13Bounced: a request that passed the pause gate, was turned away by a draining target (a pause
